@@ -15,6 +15,9 @@ CLAIMED = {}
 NOT_APPLICABLE = {}
 
 exec(open(os.path.join(ROOT, "tools", "manifest_table.py")).read())
+# hook commits: every commit in /repo whose subject starts with "verif:" (comment-only contract files)
+import subprocess
+HOOK_COMMITS = [l.split()[0] for l in subprocess.run(["git", "-C", "/repo", "log", "--reverse", "--format=%h %s"], capture_output=True, text=True).stdout.splitlines() if l.split(" ", 1)[1].startswith("verif:")]
 
 props = [json.loads(l)["id"] for l in open(os.path.join(ROOT, "properties.jsonl"))]
 checks = []
